@@ -631,6 +631,10 @@ func (c *canon) val(v ssa.Value, d int) string {
 		if src := soleCopySource(x); src != nil {
 			return "append([]," + c.val(src, d) + ")"
 		}
+		// `k := make([]T, len(a)+len(b)); copy(k, a); copy(k[len(a):], b)` is the concatenation append(a, b...)
+		if a, b := twoCopySources(x); a != nil {
+			return "append(" + c.val(a, d) + "," + c.val(b, d) + ")"
+		}
 		return "newslice<" + namedOf(x.Type()) + ">"
 	case *ssa.MakeChan:
 		return "newchan"
@@ -1172,4 +1176,76 @@ func isBytesOrString(t types.Type) bool {
 		return ok && b.Kind() == types.Uint8
 	}
 	return false
+}
+
+// twoCopySources: ms is `make([]T, len(a)+len(b))`, filled by exactly copy(ms, a) and copy(ms[len(a):], b).
+func twoCopySources(ms *ssa.MakeSlice) (ssa.Value, ssa.Value) {
+	refs := ms.Referrers()
+	if refs == nil {
+		return nil, nil
+	}
+	isLenOf := func(v, of ssa.Value) bool {
+		lc, ok := v.(*ssa.Call)
+		if !ok {
+			return false
+		}
+		bi, ok := lc.Call.Value.(*ssa.Builtin)
+		return ok && bi.Name() == "len" && len(lc.Call.Args) == 1 && (lc.Call.Args[0] == of || Canon(lc.Call.Args[0]) == Canon(of))
+	}
+	var a, b ssa.Value
+	n := 0
+	for _, r := range *refs {
+		switch u := r.(type) {
+		case *ssa.Call:
+			bi, ok := u.Call.Value.(*ssa.Builtin)
+			if !ok || bi.Name() != "copy" || len(u.Call.Args) != 2 || u.Call.Args[0] != ssa.Value(ms) {
+				continue
+			}
+			if a != nil {
+				return nil, nil
+			}
+			a = u.Call.Args[1]
+			n++
+		case *ssa.Slice:
+			if u.X != ssa.Value(ms) || u.High != nil || u.Low == nil {
+				continue
+			}
+			srefs := u.Referrers()
+			if srefs == nil {
+				continue
+			}
+			for _, sr := range *srefs {
+				call, ok := sr.(*ssa.Call)
+				if !ok {
+					continue
+				}
+				bi, ok := call.Call.Value.(*ssa.Builtin)
+				if !ok || bi.Name() != "copy" || len(call.Call.Args) != 2 || call.Call.Args[0] != ssa.Value(u) {
+					continue
+				}
+				if b != nil {
+					return nil, nil
+				}
+				b = call.Call.Args[1]
+				n++
+			}
+		}
+	}
+	if a == nil || b == nil || n != 2 {
+		return nil, nil
+	}
+	// the tail slice starts at len(a) and the length is len(a)+len(b)
+	for _, r := range *refs {
+		if u, ok := r.(*ssa.Slice); ok && u.X == ssa.Value(ms) && u.Low != nil && !isLenOf(u.Low, a) {
+			return nil, nil
+		}
+	}
+	sum, ok := ms.Len.(*ssa.BinOp)
+	if !ok || sum.Op != token.ADD {
+		return nil, nil
+	}
+	if !(isLenOf(sum.X, a) && isLenOf(sum.Y, b)) && !(isLenOf(sum.X, b) && isLenOf(sum.Y, a)) {
+		return nil, nil
+	}
+	return a, b
 }
